@@ -105,6 +105,12 @@ def _module(draw, ctx):
         # an input may carry the name the fast parser would like to use for its constants
         inputs[0] = draw(st.sampled_from(["tie0", "tie1"]))
     fresh = names[n_in:]
+    if draw(st.integers(0, 5)) == 0:
+        # ... and so may an internal net (defined by a gate, an assign or a blackbox output), also in the
+        # form the parser falls back to
+        nm_ = draw(st.sampled_from(["tie0", "tie1", "tie0_", "tie1_"]))
+        if nm_ not in inputs:
+            fresh[draw(st.integers(0, len(fresh) - 1))] = nm_
     avail = list(inputs)
     defined = []
     stmts = []
